@@ -1,40 +1,160 @@
 package dht
 
 import (
+	"hash/crc32"
 	"net"
 
 	"github.com/anacrolix/dht/v2/krpc"
 )
 
-func verifIP4() net.IP {
-	ip := make(net.IP, 4)
-	verifFill(ip)
-	return ip
+// ---- reference model of BEP 42, written independently of security.go ----
+
+func refIsV4Mapped(ip net.IP) bool {
+	if len(ip) != 16 {
+		return false
+	}
+	for i := 0; i < 10; i++ {
+		if ip[i] != 0 {
+			return false
+		}
+	}
+	return ip[10] == 0xff && ip[11] == 0xff
 }
 
-func verifIP16() net.IP {
-	ip := make(net.IP, 16)
-	verifFill(ip)
-	return ip
+// refV4 returns the 4 significant bytes when ip is an IPv4 address in either form.
+func refV4(ip net.IP) (b [4]byte, ok bool) {
+	if len(ip) == 4 {
+		copy(b[:], ip)
+		return b, true
+	}
+	if refIsV4Mapped(ip) {
+		copy(b[:], ip[12:16])
+		return b, true
+	}
+	return b, false
 }
 
-// C17 (1): securing changes only the first 21 bits, is idempotent, and verifies. IPv4 (4-byte form).
-func VerifC17_Secure4() {
+func refCRC(ip net.IP, r byte) uint32 {
+	tab := crc32.MakeTable(crc32.Castagnoli)
+	if v4, ok := refV4(ip); ok {
+		buf := []byte{v4[0] & 0x03, v4[1] & 0x0f, v4[2] & 0x3f, v4[3] & 0xff}
+		buf[0] |= (r & 7) << 5
+		return crc32.Checksum(buf, tab)
+	}
+	buf := []byte{ip[0] & 0x01, ip[1] & 0x03, ip[2] & 0x07, ip[3] & 0x0f, ip[4] & 0x1f, ip[5] & 0x3f, ip[6] & 0x7f, ip[7] & 0xff}
+	buf[0] |= (r & 7) << 5
+	return crc32.Checksum(buf, tab)
+}
+
+func refRule(id [20]byte, ip net.IP) bool {
+	crc := refCRC(ip, id[19])
+	top21 := crc >> 11
+	idTop := uint32(id[0])<<13 | uint32(id[1])<<5 | uint32(id[2])>>3
+	return top21 == idTop
+}
+
+func refLocal(ip net.IP) bool {
+	if v4, ok := refV4(ip); ok {
+		switch {
+		case v4[0] == 10:
+			return true
+		case v4[0] == 172 && v4[1]&0xf0 == 16:
+			return true
+		case v4[0] == 192 && v4[1] == 168:
+			return true
+		case v4[0] == 169 && v4[1] == 254:
+			return true
+		case v4[0] == 127:
+			return true
+		}
+		return false
+	}
+	if len(ip) != 16 {
+		return false
+	}
+	if ip[0] == 0xfe && ip[1]&0xc0 == 0x80 {
+		return true
+	}
+	for i := 0; i < 15; i++ {
+		if ip[i] != 0 {
+			return false
+		}
+	}
+	return ip[15] == 1
+}
+
+// ---- C17 (1): securing changes only the first 21 bits, is idempotent, and verifies ----
+
+func verifC17Secure(ip net.IP) {
 	var id krpc.ID
 	verifFill(id[:])
-	ip := verifIP4()
 	before := id
 	SecureNodeId(&id, ip)
 	for i := 3; i < 20; i++ {
-		verifAssert(id[i] == before[i], "bytes 3..19 unchanged")
+		verifAssert(id[i] == before[i], "C17 secure: bytes 3..19 unchanged")
 	}
-	verifAssert(id[2]&7 == before[2]&7, "low 3 bits of byte 2 unchanged")
+	verifAssert(id[2]&7 == before[2]&7, "C17 secure: low 3 bits of byte 2 unchanged")
 	again := id
 	SecureNodeId(&again, ip)
-	verifAssert(again == id, "idempotent")
-	verifAssert(NodeIdSecure(id, ip), "secured id verifies")
+	verifAssert(again == id, "C17 secure: idempotent")
+	verifAssert(NodeIdSecure(id, ip), "C17 secure: secured id verifies")
+	verifAssert(refLocal(ip) || refRule(id, ip), "C17 secure: secured id satisfies the reference rule")
 	verifReach("end")
 }
+
+func VerifC17_Secure4()      { verifC17Secure(verifIP4()) }
+func VerifC17_Secure16()     { verifC17Secure(verifIP16()) }
+func VerifC17_SecureMapped() { verifC17Secure(verifMapped()) }
+
+// ---- C17 (2,3): verification agrees with the reference rule; exemption exactly the local ranges ----
+
+func verifC17Diff(ip net.IP) {
+	var id [20]byte
+	verifFill(id[:])
+	got := NodeIdSecure(id, ip)
+	want := refLocal(ip) || refRule(id, ip)
+	verifAssert(got == want, "C17 verify: NodeIdSecure agrees with the BEP 42 reference")
+	verifAssert(isLocalNetwork(ip) == refLocal(ip), "C17 verify: exemption is exactly private/loopback/link-local")
+	verifReach("end")
+}
+
+func VerifC17_Diff4()      { verifC17Diff(verifIP4()) }
+func VerifC17_Diff16()     { verifC17Diff(verifIP16()) }
+func VerifC17_DiffMapped() { verifC17Diff(verifMapped()) }
+
+// ---- C17 (4): an ID the node generates for itself with a public IP verifies for that IP ----
+
+func VerifC17_InitNodeId() {
+	ip := verifAnyIP()
+	c := &ServerConfig{
+		Conn:       verifNewConn(),
+		PublicIP:   ip,
+		NoSecurity: verifNondetBool(),
+	}
+	if verifNondetBool() {
+		c.Conn = nil // random-ID path
+	}
+	det := c.InitNodeId()
+	if c.Conn != nil {
+		verifAssert(det, "C17 init: deterministic with Conn and PublicIP")
+		verifAssert(NodeIdSecure(c.NodeId, ip), "C17 init: generated id verifies for the public IP (deterministic path)")
+		verifAssert(refLocal(ip) || refRule(c.NodeId, ip), "C17 init: generated id satisfies the reference rule")
+	} else if !c.NoSecurity {
+		verifAssert(NodeIdSecure(c.NodeId, ip), "C17 init: generated id verifies for the public IP (random path, security on)")
+	}
+	verifReach("end")
+}
+
+func VerifC17_Deterministic() {
+	ip := verifAnyIP()
+	ua := &net.UDPAddr{IP: ip, Port: verifPort()}
+	id := MakeDeterministicNodeID(ua)
+	verifAssert(NodeIdSecure(id, ip), "C17 deterministic id verifies for the address it was made for")
+	verifAssert(refLocal(ip) || refRule(id, ip), "C17 deterministic id satisfies the reference rule")
+	verifReach("end")
+}
+
+// ---- must-fail twin ----
 
 func VerifC17_MustFail() {
 	var id krpc.ID
